@@ -111,8 +111,11 @@ class GpLinearInverter:
                 """
             )
 
-        self.A = model_matrix
-        self.y = y
+        # hold the data as floating-point arrays whatever numeric type was given:
+        # arithmetic on integer arrays wraps around / overflows
+        self.A = model_matrix.astype(float)
+        self.y = y.astype(float)
+        y_err = y_err.astype(float)
 
         self.cov = prior_covariance_function
         self.cov = self.cov() if isclass(self.cov) else self.cov
